@@ -216,30 +216,40 @@ def run_probe(rng, wv):
     x, y = wv.get()
     n = len(x)
     p = PROBES[int(rng.integers(0, len(PROBES)))]
+    def expect(cond, what):
+        if not cond:
+            raise AssertionError("read-only probe returned something else than the current series: " + what)
     if p == "get":
-        wv.get()
+        expect(wv.get()[0] is x and wv.get()[1] is y, "get")
     elif p == "get_original":
-        wv.get_original()
+        ox, oy = wv.get_original()
+        expect(len(ox) == len(oy), "get_original")
     elif p == "get_reference":
-        wv.get_reference()
+        rx, ry = wv.get_reference()
+        expect(len(rx) == len(ry), "get_reference")
     elif p == "slice_by_index":
         a = int(rng.integers(0, n))
-        wv.slice_by_index(a, int(rng.integers(a, n + 1)), int(rng.integers(1, 4)))
+        b, st = int(rng.integers(a, n + 1)), int(rng.integers(1, 4))
+        sx, sy = wv.slice_by_index(a, b, st)
+        expect(np.array_equal(sx, x[a:b:st]) and np.array_equal(sy, y[a:b:st]), "slice_by_index")
     elif p == "slice_by_value":
         a = int(rng.integers(0, n))
         b = int(rng.integers(a, n))
-        wv.slice_by_value(x[a], x[b])
+        sx, sy = wv.slice_by_value(x[a], x[b])
+        expect(np.array_equal(sx, x[a:b + 1]) and np.array_equal(sy, y[a:b + 1]), "slice_by_value")
     elif p == "to_function":
         if 4 <= n <= SPLINE_MAX:
             f = wv.to_function()
             f(float(x[0]))
         else:
             p = "len"
-            len(wv)
+            expect(len(wv) == n, "len")
     elif p == "to_2d_array":
-        wv.to_2d_array()
+        xy = wv.to_2d_array()
+        expect(isinstance(xy, np.ndarray) and xy.shape == (n, 2) and np.array_equal(xy[:, 0], np.asarray(x, dtype=float))
+               and np.array_equal(xy[:, 1], np.asarray(y, dtype=float)), "to_2d_array")
     else:
-        len(wv)
+        expect(len(wv) == n, "len")
     return p
 
 
